@@ -327,10 +327,7 @@ def run(ctx):
     sub = type(ctx)(ctx.prop, ctx.tier, ctx.facts, ctx.facts_info, ctx.seed)
     R = c03.rights_consts(sub)
     if R is not None:
-        c03.table_moved(sub, R)
-        c03.table_taken(sub, R)
-        c03.table_ep_target(sub)
-        c03.r1_standard(sub)
+        c03.standard_rules(sub, R)
         c03.r2_castle(sub, R)
         c03.r3_en_passant(sub)
     for s in sub.samples:
